@@ -16,11 +16,13 @@ class PyClosure:
 
 
 class MapDriver:
-    def __init__(self, it: Interp, capacity: Optional[int] = None, facade: str = 'guard'):
+    def __init__(self, it: Interp, capacity: Optional[int] = None, facade: str = 'guard', mapval=None):
         self.it = it
         self.prog = it.prog
         self.facade = facade
-        if capacity is None:
+        if mapval is not None:
+            m = mapval
+        elif capacity is None:
             m = it.call_fn(self.prog.get('map::HashMap::with_hasher'), [Opaque('S')])
         else:
             m = it.call_fn(self.prog.get('map::HashMap::with_capacity_and_hasher'), [Sc(capacity, 'usize'), Opaque('S')])
@@ -159,3 +161,24 @@ class MapDriver:
             p = cell.fields[0].fields[0]
             out.append(None if p.base is None else p.base.val.fields[1])   # BinEntry
         return out
+
+
+class PyIter:
+    """harness iterator handed to FromIterator / Extend: yields (key, value) token pairs, reports a chosen lower size hint"""
+
+    def __init__(self, items, lower_hint: int):
+        self.items = list(items)
+        self.pos = 0
+        self.lower = lower_hint
+
+    def next(self):
+        if self.pos >= len(self.items):
+            return Agg('Option', 'None', [])
+        k, v = self.items[self.pos]
+        self.pos += 1
+        return Agg('Option', 'Some', [Agg('tuple', None, [k, v])])
+
+    def size_hint(self):
+        rest = len(self.items) - self.pos
+        lo = min(self.lower, rest)
+        return Agg('tuple', None, [Sc(lo, 'usize'), Agg('Option', 'Some', [Sc(rest, 'usize')])])
